@@ -695,9 +695,43 @@ Proof.
     (destruct H as [H|H]; [left; exact H|right; lia]).
 Qed.
 
+Lemma adv_loop_Own : forall fuel s req acc, Own s -> Own (snd (adv_loop fuel s req acc)).
+Proof.
+  induction fuel as [|f IH]; intros s req acc H; cbn [adv_loop]; [exact H|].
+  destruct (firstn (bsz s) (skipn (Z.to_nat (npos s)) (node s (cursor s)))) as [|b0 bl].
+  - destruct (Nat.eqb (S (cursor s)) (nnodes s)); [cbn [snd]; left; reflexivity|].
+    apply IH. apply switch_Own. exact H.
+  - destruct (zlen (b0 :: bl) >=? req); [cbn [snd]; right; reflexivity|].
+    apply IH. left. reflexivity.
+Qed.
+
+Lemma consume_Own s n : Own s -> Own (snd (consume s n)).
+Proof.
+  intros H. unfold consume.
+  destruct (n <? 0); [exact H|]. destruct (n =? 0); [exact H|].
+  assert (HA : Own (snd (advance s n))).
+  { unfold advance.
+    set (k := Z.min n (zlen (pending s))).
+    set (s1 := mkM (nodes s) (bsz s) (cursor s) (npos s) (tab s) (skipn (Z.to_nat k) (pending s)) (powner s) (meof s) (fpos s + k)).
+    assert (H1 : Own s1).
+    { unfold Own, s1. cbn [pending powner cursor]. destruct H as [H|H]; [left; rewrite H; apply skipn_nil|right; exact H]. }
+    destruct (n - k =? 0); [exact H1|].
+    unfold skip_by_seek.
+    destruct (65536 <? n - k).
+    - cbn [fst snd nodes bsz cursor npos tab pending powner meof fpos].
+      match goal with |- Own (snd (if ?c then _ else _)) => destruct c end;
+        [cbn [snd]|apply adv_loop_Own]; unfold Own in *; cbn [pending powner cursor] in *; exact H1.
+    - cbn [fst snd nodes bsz cursor npos tab pending powner meof fpos].
+      match goal with |- Own (snd (if ?c then _ else _)) => destruct c end;
+        [cbn [snd]|apply adv_loop_Own]; unfold Own in *; cbn [pending powner cursor] in *; exact H1. }
+  destruct (advance s n) as [sk s']. cbn [snd] in HA.
+  destruct (sk =? n); exact HA.
+Qed.
+
 Theorem mstep_Own s o : Own s -> Own (fst (mstep s o)).
 Proof.
-  intros H. destruct o as [|off wh]; cbn [mstep].
+  intros H. destruct o as [|off wh|n]; cbn [mstep];
+    [| |pose proof (consume_Own s n H) as HC; destruct (consume s n) as [r s']; exact HC].
   - unfold read_block. destruct (pending s) as [|p0 pl] eqn:EP.
     + destruct (meof s); [cbn [fst]; left; exact EP|].
       destruct (mread s) as [blk s1]. cbn [fst]. left. reflexivity.
@@ -752,11 +786,267 @@ Proof.
   specialize (IH s1 H1). destruct (mrun s1 r) as [s2 xs]. exact IH.
 Qed.
 
+(* ---------------- consume ---------------- *)
+Lemma restf_advance ns c p d :
+  0 <= p -> 0 <= d -> p + d <= sz ns c -> restf ns c (p + d) = skipn (Z.to_nat d) (restf ns c p).
+Proof.
+  intros Hp Hd Hle. unfold restf.
+  rewrite skipn_z_add by assumption.
+  rewrite skipn_app_le; [reflexivity|].
+  rewrite skipn_length. unfold sz, zlen in Hle. lia.
+Qed.
+
+Lemma rest_length_le s : SInv s -> (length (rest s) <= length (flat s))%nat.
+Proof.
+  intros HI. pose proof (si_stream _ HI) as H.
+  assert (length (pending s ++ rest s) <= length (flat s))%nat by (rewrite <- H, skipn_length; lia).
+  rewrite app_length in H0. lia.
+Qed.
+
+Definition same_cfg (s s' : mst) : Prop := nodes s' = nodes s /\ bsz s' = bsz s.
+
+Lemma adv_loop_spec : forall fuel s req acc,
+  SInv s -> pending s = [] -> 0 < req ->
+  (length (rest s) + (nnodes s - cursor s) <= fuel)%nat ->
+  SInv (snd (adv_loop fuel s req acc)) /\ same_cfg s (snd (adv_loop fuel s req acc)) /\
+  (req <= zlen (rest s) ->
+     fst (adv_loop fuel s req acc) = acc + req /\ fpos (snd (adv_loop fuel s req acc)) = fpos s + req) /\
+  (zlen (rest s) < req ->
+     fst (adv_loop fuel s req acc) = acc + zlen (rest s) /\
+     fpos (snd (adv_loop fuel s req acc)) = fpos s + zlen (rest s)).
+Proof.
+  induction fuel as [|f IH]; intros s req acc HI HP Hreq Hf.
+  - pose proof (ci_cur _ (si_c _ HI)). lia.
+  - cbn [adv_loop].
+    pose proof (si_c _ HI) as HC. pose proof (si_stream _ HI) as HS. rewrite HP in HS. cbn [app] in HS.
+    remember (skipn (Z.to_nat (npos s)) (node s (cursor s))) as X eqn:EX.
+    destruct (firstn (bsz s) X) as [|b0 bl] eqn:EB.
+    + assert (HX : X = []) by (eapply firstn_nil_skipn; [apply (ci_bs _ HC)|exact EB]).
+      assert (HR : rest s = concat (skipn (S (cursor s)) (nodes s))).
+      { unfold rest, restf. fold (node s (cursor s)). rewrite <- EX, HX. reflexivity. }
+      destruct (Nat.eqb (S (cursor s)) (nnodes s)) eqn:EL.
+      * apply Nat.eqb_eq in EL.
+        assert (HR0 : rest s = []) by (rewrite HR; unfold nnodes in EL; rewrite EL, skipn_all; reflexivity).
+        cbn [fst snd]. split.
+        { constructor; cbn [nodes bsz cursor npos tab pending powner meof fpos].
+          - destruct HC as [c1 c2 c3]. constructor; assumption.
+          - apply (si_t _ HI).
+          - apply (si_f _ HI).
+          - cbn [app]. exact HS.
+          - intros _. split; [reflexivity|exact HR0]. }
+        split; [split; reflexivity|].
+        rewrite HR0, zlen_nil. split; [intros; lia|]. intros _. cbn [fpos]. split; lia.
+      * apply Nat.eqb_neq in EL.
+        assert (Hsw : switch s (S (cursor s)) =
+                      mkM (nodes s) (bsz s) (S (cursor s)) 0 (tab s) [] (powner s) (meof s) (fpos s)).
+        { unfold switch. destruct (Nat.eqb (cursor s) (S (cursor s))) eqn:E; [apply Nat.eqb_eq in E; lia|reflexivity]. }
+        rewrite Hsw.
+        set (s1 := mkM (nodes s) (bsz s) (S (cursor s)) 0 (tab s) [] (powner s) (meof s) (fpos s)).
+        assert (Hlt : (S (cursor s) < nnodes s)%nat) by (pose proof (ci_cur _ HC); lia).
+        assert (HR1 : rest s1 = rest s).
+        { rewrite HR. unfold rest, s1. cbn [nodes cursor npos]. apply restf_next. exact Hlt. }
+        assert (HI1 : SInv s1).
+        { constructor; cbn [nodes bsz cursor npos tab pending powner meof fpos s1].
+          - constructor; cbn [nodes bsz cursor npos]; [exact Hlt| |apply (ci_bs _ HC)].
+            pose proof (sz_nonneg (nodes s) (S (cursor s))). change (0 <= 0 <= sz (nodes s) (S (cursor s))). lia.
+          - apply (si_t _ HI).
+          - apply (si_f _ HI).
+          - cbn [app]. change (skipn (Z.to_nat (fpos s)) (flat s) = rest s1). rewrite HR1. exact HS.
+          - intros HE. split; [reflexivity|]. change (rest s1 = []). rewrite HR1. apply (si_eof _ HI HE). }
+        destruct (IH s1 req acc HI1 eq_refl Hreq) as (A1 & A2 & A3 & A4).
+        { rewrite HR1. change (nnodes s1) with (nnodes s). change (cursor s1) with (S (cursor s)). lia. }
+        rewrite HR1 in A3, A4. split; [exact A1|]. split; [exact A2|]. split; [exact A3|exact A4].
+    + assert (HXs : X = (b0 :: bl) ++ skipn (length (b0 :: bl)) X) by (rewrite <- EB; apply firstn_skipn_len).
+      assert (Hlen : zlen (b0 :: bl) <= nsize s (cursor s) - npos s).
+      { pose proof (ci_pos _ HC) as Hp.
+        assert (length (b0 :: bl) <= length X)%nat by (rewrite <- EB, firstn_length; lia).
+        assert (length X = length (node s (cursor s)) - Z.to_nat (npos s))%nat by (rewrite EX, skipn_length; reflexivity).
+        unfold nsize, zlen in *. lia. }
+      pose proof (ci_pos _ HC) as Hp.
+      assert (Hn0 : 0 < zlen (b0 :: bl)) by (unfold zlen; cbn [length]; lia).
+      assert (HRb : rest s = (b0 :: bl) ++ restf (nodes s) (cursor s) (npos s + zlen (b0 :: bl))).
+      { unfold rest. rewrite restf_advance; [|lia|lia|change (sz (nodes s) (cursor s)) with (nsize s (cursor s)); lia].
+        unfold restf at 2. fold (node s (cursor s)). rewrite <- EX.
+        unfold restf. fold (node s (cursor s)). rewrite <- EX.
+        set (T := concat (skipn (S (cursor s)) (nodes s))).
+        set (X' := skipn (length (b0 :: bl)) X) in HXs.
+        rewrite HXs. rewrite <- !app_assoc. rewrite skipn_zlen_app. reflexivity. }
+      destruct (zlen (b0 :: bl) >=? req) eqn:EG.
+      * rewrite Z.geb_leb in EG. apply Z.leb_le in EG. cbn [fst snd].
+        assert (Hreq_rest : req <= zlen (rest s)).
+        { rewrite HRb, zlen_app. pose proof (zlen_nonneg (restf (nodes s) (cursor s) (npos s + zlen (b0 :: bl)))). lia. }
+        split.
+        { constructor; cbn [nodes bsz cursor npos tab pending powner meof fpos].
+          - constructor; [apply (ci_cur _ HC)| |apply (ci_bs _ HC)].
+            change (0 <= npos s + zlen (b0 :: bl) <= nsize s (cursor s)). lia.
+          - apply (si_t _ HI).
+          - pose proof (si_f _ HI). lia.
+          - change (skipn (Z.to_nat (fpos s + req)) (flat s) =
+                    skipn (Z.to_nat req) (b0 :: bl) ++ restf (nodes s) (cursor s) (npos s + zlen (b0 :: bl))).
+            pose proof (si_f _ HI).
+            rewrite skipn_z_add by lia. rewrite HS, HRb.
+            apply skipn_app_le. unfold zlen in EG. lia.
+          - intros HE. destruct (si_eof _ HI HE) as [_ HR0]. rewrite HRb in HR0. discriminate HR0. }
+        split; [split; reflexivity|].
+        split; [intros _; cbn [fpos]; split; reflexivity|intros; lia].
+      * rewrite Z.geb_leb in EG. apply Z.leb_gt in EG.
+        set (s1 := mkM (nodes s) (bsz s) (cursor s) (npos s + zlen (b0 :: bl)) (tab s) [] (powner s) (meof s) (fpos s + zlen (b0 :: bl))).
+        assert (HR1 : rest s = (b0 :: bl) ++ rest s1) by exact HRb.
+        assert (HI1 : SInv s1).
+        { constructor; cbn [nodes bsz cursor npos tab pending powner meof fpos s1].
+          - constructor; [apply (ci_cur _ HC)| |apply (ci_bs _ HC)].
+            change (0 <= npos s + zlen (b0 :: bl) <= nsize s (cursor s)). lia.
+          - apply (si_t _ HI).
+          - pose proof (si_f _ HI). lia.
+          - cbn [app]. change (skipn (Z.to_nat (fpos s + zlen (b0 :: bl))) (flat s) = rest s1).
+            pose proof (si_f _ HI). rewrite skipn_z_add by lia. rewrite HS, HR1. apply skipn_zlen_app.
+          - intros HE. destruct (si_eof _ HI HE) as [_ HR0]. rewrite HR1 in HR0. discriminate HR0. }
+        destruct (IH s1 (req - zlen (b0 :: bl)) (acc + zlen (b0 :: bl)) HI1 eq_refl ltac:(lia)) as (A1 & A2 & A3 & A4).
+        { assert (length (rest s) = length (b0 :: bl) + length (rest s1))%nat by (rewrite HR1, app_length; reflexivity).
+          cbn [length] in H. change (nnodes s1) with (nnodes s). change (cursor s1) with (cursor s). lia. }
+        split; [exact A1|]. split; [exact A2|].
+        assert (HZ : zlen (rest s) = zlen (b0 :: bl) + zlen (rest s1)) by (rewrite HR1, zlen_app; reflexivity).
+        cbn [fpos s1] in A3, A4.
+        split.
+        { intros Hle. destruct A3 as [B1 B2]; [lia|]. split; [rewrite B1; lia|rewrite B2; lia]. }
+        { intros Hgt. destruct A4 as [B1 B2]; [lia|]. split; [rewrite B1; lia|rewrite B2; lia]. }
+Qed.
+
+Lemma skip_by_seek_spec s req :
+  SInv s -> pending s = [] -> 0 < req ->
+  let sk := fst (skip_by_seek s req) in
+  let s2 := snd (skip_by_seek s req) in
+  0 <= sk <= req /\ sk <= zlen (rest s) /\ same_cfg s s2 /\ pending s2 = [] /\
+  SInv (mkM (nodes s2) (bsz s2) (cursor s2) (npos s2) (tab s2) (pending s2) (powner s2) (meof s2) (fpos s2 + sk)) /\
+  zlen (rest s2) = zlen (rest s) - sk /\ fpos s2 = fpos s.
+Proof.
+  intros HI HP Hreq. cbv zeta. unfold skip_by_seek.
+  pose proof (si_c _ HI) as HC. pose proof (ci_pos _ HC) as Hp.
+  pose proof (si_stream _ HI) as HS. rewrite HP in HS. cbn [app] in HS.
+  destruct (65536 <? req) eqn:E64.
+  - cbn [fst snd nodes bsz cursor npos tab pending powner meof fpos].
+    destruct (nsize s (cursor s) <? npos s) eqn:E1; [apply Z.ltb_lt in E1; lia|].
+    set (r := if nsize s (cursor s) - npos s <? req then nsize s (cursor s) - npos s else req).
+    assert (Hr : 0 <= r <= req /\ r <= nsize s (cursor s) - npos s).
+    { unfold r. destruct (nsize s (cursor s) - npos s <? req) eqn:E2; [apply Z.ltb_lt in E2|apply Z.ltb_ge in E2]; lia. }
+    assert (HR2 : restf (nodes s) (cursor s) (npos s + r) = skipn (Z.to_nat r) (rest s)).
+    { unfold rest. apply restf_advance; [lia|lia|change (sz (nodes s) (cursor s)) with (nsize s (cursor s)); lia]. }
+    assert (Hrl : r <= zlen (rest s)).
+    { unfold rest, restf. rewrite zlen_app. fold (node s (cursor s)).
+      pose proof (zlen_nonneg (concat (skipn (S (cursor s)) (nodes s)))).
+      assert (zlen (skipn (Z.to_nat (npos s)) (node s (cursor s))) = nsize s (cursor s) - npos s).
+      { unfold nsize, zlen. rewrite skipn_length. unfold nsize, zlen in Hp. lia. }
+      lia. }
+    split; [lia|]. split; [exact Hrl|]. split; [split; reflexivity|]. split; [exact HP|].
+    split.
+    { constructor; cbn [nodes bsz cursor npos tab pending powner meof fpos].
+      - constructor; [apply (ci_cur _ HC)| |apply (ci_bs _ HC)].
+        change (0 <= npos s + r <= nsize s (cursor s)). lia.
+      - apply (si_t _ HI).
+      - pose proof (si_f _ HI). lia.
+      - rewrite HP. cbn [app].
+        change (skipn (Z.to_nat (fpos s + r)) (flat s) = restf (nodes s) (cursor s) (npos s + r)).
+        pose proof (si_f _ HI). rewrite skipn_z_add by lia. rewrite HS. symmetry. exact HR2.
+      - intros HE. split; [exact HP|]. destruct (si_eof _ HI HE) as [_ HR0].
+        change (restf (nodes s) (cursor s) (npos s + r) = []). rewrite HR2, HR0. apply skipn_nil. }
+    split; [|reflexivity].
+    change (zlen (restf (nodes s) (cursor s) (npos s + r)) = zlen (rest s) - r).
+    rewrite HR2. unfold zlen. rewrite skipn_length. unfold zlen in Hrl. lia.
+  - cbn [fst snd]. split; [lia|]. split; [apply zlen_nonneg|]. split; [split; reflexivity|]. split; [exact HP|].
+    split.
+    { destruct HI as [c1 c2 c3 c4 c5]. constructor; cbn [nodes bsz cursor npos tab pending powner meof fpos]; try assumption.
+      - destruct c1; constructor; assumption.
+      - lia.
+      - rewrite Z.add_0_r. exact c4. }
+    split; [lia|reflexivity].
+Qed.
+
+Theorem advance_spec s n :
+  SInv s -> 0 < n ->
+  SInv (snd (advance s n)) /\ same_cfg s (snd (advance s n)) /\
+  (n <= zlen (pending s) + zlen (rest s) ->
+     fst (advance s n) = n /\ fpos (snd (advance s n)) = fpos s + n) /\
+  (zlen (pending s) + zlen (rest s) < n ->
+     fst (advance s n) = zlen (pending s) + zlen (rest s) /\
+     fpos (snd (advance s n)) = fpos s + zlen (pending s) + zlen (rest s)).
+Proof.
+  intros HI Hn. unfold advance.
+  set (k := Z.min n (zlen (pending s))).
+  pose proof (zlen_nonneg (pending s)) as Hpl. pose proof (zlen_nonneg (rest s)) as Hrl.
+  assert (Hk : 0 <= k <= n /\ k <= zlen (pending s)) by (unfold k; lia).
+  set (s1 := mkM (nodes s) (bsz s) (cursor s) (npos s) (tab s) (skipn (Z.to_nat k) (pending s)) (powner s) (meof s) (fpos s + k)).
+  pose proof (si_stream _ HI) as HS. pose proof (si_f _ HI) as HF.
+  assert (HI1 : SInv s1).
+  { constructor; cbn [nodes bsz cursor npos tab pending powner meof fpos s1].
+    - destruct (si_c _ HI) as [c1 c2 c3]. constructor; assumption.
+    - apply (si_t _ HI).
+    - lia.
+    - change (skipn (Z.to_nat (fpos s + k)) (flat s) = skipn (Z.to_nat k) (pending s) ++ rest s).
+      rewrite skipn_z_add by lia. rewrite HS. apply skipn_app_le. unfold zlen in Hk. lia.
+    - intros HE. destruct (si_eof _ HI HE) as [HP0 HR0]. split; [rewrite HP0; apply skipn_nil|exact HR0]. }
+  destruct (n - k =? 0) eqn:E0.
+  - apply Z.eqb_eq in E0. cbn [fst snd]. split; [exact HI1|]. split; [split; reflexivity|].
+    split; [intros _; cbn [fpos s1]; split; [lia|f_equal; lia]|intros; lia].
+  - apply Z.eqb_neq in E0.
+    assert (Hkp : k = zlen (pending s)) by (unfold k in *; lia).
+    assert (HP1 : pending s1 = []).
+    { cbn [pending s1]. rewrite Hkp. unfold zlen. rewrite Nat2Z.id. apply skipn_all. }
+    assert (HR1 : rest s1 = rest s) by reflexivity.
+    pose proof (skip_by_seek_spec s1 (n - k) HI1 HP1 ltac:(lia)) as SK. cbv zeta in SK.
+    destruct (skip_by_seek s1 (n - k)) as [sk s2]. cbn [fst snd] in SK.
+    destruct SK as (K1 & K2 & K3 & K4 & K5 & K6 & K7).
+    rewrite HR1 in K2, K6. cbn [fpos s1] in K7.
+    set (s3 := mkM (nodes s2) (bsz s2) (cursor s2) (npos s2) (tab s2) (pending s2) (powner s2) (meof s2) (fpos s2 + sk)) in *.
+    assert (C13 : same_cfg s s3) by (destruct K3 as [Ka Kb]; split; cbn [nodes bsz s3]; [rewrite Ka|rewrite Kb]; reflexivity).
+    destruct (n - k - sk =? 0) eqn:E1.
+    + apply Z.eqb_eq in E1. cbn [fst snd]. split; [exact K5|]. split; [exact C13|].
+      split; [intros _; cbn [fpos s3]; split; lia|intros; lia].
+    + apply Z.eqb_neq in E1.
+      assert (HR3 : zlen (rest s3) = zlen (rest s) - sk) by exact K6.
+      pose proof (adv_loop_spec (length (concat (nodes s)) + nnodes s + 1) s3 (n - k - sk) (k + sk) K5 K4 ltac:(lia)) as AL.
+      destruct AL as (A1 & A2 & A3 & A4).
+      { pose proof (rest_length_le s3 K5) as HL. unfold flat in HL. destruct C13 as [Ca Cb]. rewrite Ca in HL.
+        unfold nnodes. rewrite Ca. lia. }
+      split; [exact A1|].
+      split; [destruct A2 as [Aa Ab]; destruct C13 as [Ca Cb]; split; congruence|].
+      rewrite HR3 in A3, A4. cbn [fpos s3] in A3, A4.
+      split.
+      * intros Hle. destruct A3 as [B1 B2]; [lia|]. split; [rewrite B1; lia|rewrite B2; lia].
+      * intros Hgt. destruct A4 as [B1 B2]; [lia|]. split; [rewrite B1; lia|rewrite B2; lia].
+Qed.
+
+Theorem consume_spec s n :
+  SInv s ->
+  SInv (snd (consume s n)) /\ same_cfg s (snd (consume s n)) /\
+  (0 <= n <= zlen (pending s) + zlen (rest s) ->
+     fst (consume s n) = n /\ fpos (snd (consume s n)) = fpos s + n) /\
+  (n < 0 \/ zlen (pending s) + zlen (rest s) < n -> fst (consume s n) = M_FATAL).
+Proof.
+  intros HI. unfold consume.
+  destruct (n <? 0) eqn:E1.
+  - apply Z.ltb_lt in E1. cbn [fst snd]. split; [exact HI|]. split; [split; reflexivity|]. split; [lia|reflexivity].
+  - apply Z.ltb_ge in E1. destruct (n =? 0) eqn:E2.
+    + apply Z.eqb_eq in E2. cbn [fst snd]. split; [exact HI|]. split; [split; reflexivity|].
+      pose proof (zlen_nonneg (pending s)). pose proof (zlen_nonneg (rest s)).
+      split; [intros _; split; lia|intros [H1|H1]; lia].
+    + apply Z.eqb_neq in E2.
+      destruct (advance_spec s n HI ltac:(lia)) as (A1 & A2 & A3 & A4).
+      destruct (advance s n) as [sk s']. cbn [fst snd] in *.
+      destruct (sk =? n) eqn:E3; cbn [fst snd]; (split; [exact A1|]); (split; [exact A2|]).
+      * apply Z.eqb_eq in E3. split.
+        { intros Hle. destruct A3 as [B1 B2]; [lia|]. split; [exact B1|exact B2]. }
+        { intros [Hl|Hg]; [lia|]. destruct A4 as [B1 _]; [exact Hg|]. lia. }
+      * apply Z.eqb_neq in E3. split.
+        { intros Hle. destruct A3 as [B1 _]; [lia|]. lia. }
+        { intros _. reflexivity. }
+Qed.
+
 (* ---------------- refinement: outputs depend on the concatenation only ---------------- *)
 Definition in_range (s : mst) (o : mop) : Prop :=
   match o with
   | MRead => True
   | MSeek off wh => exists t, seek_target s off wh = Some t /\ 0 <= t <= total (nodes s)
+  | MConsume n => 0 <= n <= zlen (skipn (Z.to_nat (fpos s)) (flat s))
   end.
 
 (* what an observer who knows only the concatenated stream [fl] and the position [a] may see *)
@@ -768,6 +1058,7 @@ Definition out_ok (fl : bytes) (a : Z) (o : mop) (x : mout) (a' : Z) : Prop :=
   | MSeek off wh, MPos r p =>
       let t := match wh with 0 => off | 1 => off + a | _ => zlen fl + off end in
       r = t /\ p = t /\ a' = t
+  | MConsume n, MCons r p => r = n /\ p = a + n /\ a' = p
   | _, _ => False
   end.
 
@@ -776,7 +1067,14 @@ Theorem mstep_refines s o :
   SInv (fst (mstep s o)) /\ nodes (fst (mstep s o)) = nodes s /\ bsz (fst (mstep s o)) = bsz s /\
   out_ok (flat s) (fpos s) o (snd (mstep s o)) (fpos (fst (mstep s o))).
 Proof.
-  intros HI HR. destruct o as [|off wh]; cbn [mstep].
+  intros HI HR. destruct o as [|off wh|n]; cbn [mstep].
+  3:{ cbn [in_range] in HR.
+      destruct (consume_spec s n HI) as (A1 & [A2 A2'] & A3 & A4).
+      assert (HZ : zlen (skipn (Z.to_nat (fpos s)) (flat s)) = zlen (pending s) + zlen (rest s)).
+      { rewrite (si_stream _ HI). apply zlen_app. }
+      rewrite HZ in HR. destruct (A3 HR) as [B1 B2].
+      destruct (consume s n) as [r s']. cbn [fst snd out_ok] in *.
+      split; [exact A1|]. split; [exact A2|]. split; [exact A2'|]. split; [exact B1|]. split; [exact B2|reflexivity]. }
   - destruct (read_block_spec s HI) as (A1 & A2 & A3 & A4 & A5 & A6).
     destruct (read_block s) as [b s']. cbn [fst snd] in *.
     split; [exact A1|]. split; [exact A2|]. split; [exact A3|].
